@@ -185,7 +185,7 @@ var $subslice = (slice, low, high, max) => {
     return s;
 };
 
-var $substring = (str, low, high) => {
+var $substring = (str, low, high = str.length) => {
     if (low < 0 || high < low || high > str.length) {
         $throwRuntimeError("slice bounds out of range");
     }
